@@ -19,7 +19,7 @@ pub struct ExtraReplay {
     pub extra: serde_json::Value,
 }
 
-fn write_replay(dir: &str, prop: &str, kind: &str, detail: &str, extra: serde_json::Value) -> String {
+pub fn write_replay(dir: &str, prop: &str, kind: &str, detail: &str, extra: serde_json::Value) -> String {
     let _ = std::fs::create_dir_all(dir);
     let body = serde_json::to_string_pretty(&ExtraReplay { property: prop.into(), kind: kind.into(), detail: detail.into(), extra }).unwrap();
     let mut h: u64 = 0xcbf29ce484222325;
@@ -137,6 +137,28 @@ pub fn capseq_child(vals: &[usize]) {
         .is_err()
     });
     println!("{}", serde_json::json!({"results": results, "measured": measured, "zero_rejected": zero_rejected}));
+}
+
+/// Child process of the default-capacity race: one thread per value, released together, each
+/// calling set_default_mailbox_capacity(value) once; then one more sequential call; then the
+/// capacity spawn() really uses is measured.
+pub fn caprace_child(vals: &[usize]) {
+    let go = std::sync::Arc::new(std::sync::atomic::AtomicBool::new(false));
+    let mut hs = vec![];
+    for v in vals.iter().copied() {
+        let go = go.clone();
+        hs.push(std::thread::spawn(move || {
+            while !go.load(std::sync::atomic::Ordering::Acquire) {
+                std::hint::spin_loop();
+            }
+            rsactor::set_default_mailbox_capacity(v).is_ok()
+        }));
+    }
+    go.store(true, std::sync::atomic::Ordering::Release);
+    let results: Vec<bool> = hs.into_iter().map(|h| h.join().unwrap_or(false)).collect();
+    let later = rsactor::set_default_mailbox_capacity(77).is_ok();
+    let measured = measure_default_capacity();
+    println!("{}", serde_json::json!({"results": results, "later": later, "measured": measured}));
 }
 
 /// number of tells that complete while the actor is blocked in on_start = the real capacity
@@ -290,6 +312,35 @@ pub fn replay_extra(prop: &str, extra: &serde_json::Value) -> Vec<String> {
             if !dups.is_empty() {
                 return vec![format!("{threads} threads x {spawns} spawns: duplicate ids {:?}", &dups[..dups.len().min(3)])];
             }
+        }
+        return vec![];
+    }
+    if let Some(r) = extra.get("caprace") {
+        let vals: Vec<String> = r["vals"].as_array().map(|a| a.iter().map(|x| x.as_u64().unwrap_or(0).to_string()).collect()).unwrap_or_default();
+        let exe = std::env::current_exe().expect("exe");
+        for _ in 0..300 {
+            let Ok(outp) = std::process::Command::new(&exe).arg("capseq").arg("--race").arg("1").arg("--vals").arg(vals.join(",")).output() else { continue };
+            let line = String::from_utf8_lossy(&outp.stdout);
+            let Ok(j) = serde_json::from_str::<serde_json::Value>(line.lines().last().unwrap_or("")) else { continue };
+            let oks = j["results"].as_array().map(|a| a.iter().filter(|x| x.as_bool() == Some(true)).count()).unwrap_or(0);
+            if oks > 1 {
+                return vec![format!("{oks} concurrent set_default_mailbox_capacity calls were accepted")];
+            }
+        }
+        return vec![];
+    }
+    if let Some(r) = extra.get("race") {
+        let kind = r["kind"].as_str().unwrap_or("drop").to_string();
+        let seed = r["seed"].as_u64().unwrap_or(1);
+        let rounds = r["rounds"].as_u64().unwrap_or(150) as u32;
+        let k: &'static str = crate::races::KINDS.iter().copied().find(|x| *x == kind).unwrap_or("drop");
+        let mut part = Part::default();
+        let dir = std::env::temp_dir().join(format!("vh-replay-{}", std::process::id()));
+        let sink = |_: &str, _: &str, _: &str, _: &str, _: serde_json::Value| String::new();
+        let code = crate::races::replay(prop, k, seed, rounds * 4, &mut part, &sink);
+        let _ = std::fs::remove_dir_all(&dir);
+        if code != 0 {
+            return part.violations.iter().map(|v| v["detail"].as_str().unwrap_or("").to_string()).collect();
         }
         return vec![];
     }
@@ -533,6 +584,82 @@ pub fn c03_race(prop: &'static str, seed: u64, rounds: u32, replay_out: &str, pa
 }
 
 // ---------------------------------------------------------------------------------------------
+// C09: the process-wide default capacity configured from several threads at once
+// ---------------------------------------------------------------------------------------------
+/// Each case is a fresh child process in which 2-8 threads, released together, call
+/// set_default_mailbox_capacity with generated values (zero included). Exactly one of the non-zero
+/// calls may succeed, zero never does, a later call is rejected, and spawn() uses the winner's value
+/// (or 32 when nobody could win).
+pub fn c09_cap_race(seed: u64, cases: u32, replay_out: &str, part: &mut Part) -> i32 {
+    const VALS: [usize; 9] = [0, 1, 2, 3, 5, 8, 33, 64, 100];
+    let exe = std::env::current_exe().expect("exe");
+    let mut x = (seed ^ 0xCA9).wrapping_mul(0x9E3779B97F4A7C15) | 1;
+    let mut next = |n: u64| {
+        x ^= x << 13;
+        x ^= x >> 7;
+        x ^= x << 17;
+        (x >> 11) % n
+    };
+    for _ in 0..cases {
+        let n = 2 + next(7) as usize;
+        // distinct non-zero values so that the winner can be identified from the measured capacity
+        let mut vals: Vec<usize> = vec![];
+        while vals.len() < n {
+            let v = VALS[next(VALS.len() as u64) as usize];
+            if v == 0 || !vals.contains(&v) {
+                vals.push(v);
+            }
+        }
+        let arg = vals.iter().map(|v| v.to_string()).collect::<Vec<_>>().join(",");
+        let Ok(outp) = std::process::Command::new(&exe).arg("capseq").arg("--race").arg("1").arg("--vals").arg(&arg).output() else { continue };
+        let line = String::from_utf8_lossy(&outp.stdout);
+        let Ok(j) = serde_json::from_str::<serde_json::Value>(line.lines().last().unwrap_or("")) else { continue };
+        let got: Vec<bool> = j["results"].as_array().map(|a| a.iter().map(|x| x.as_bool().unwrap_or(false)).collect()).unwrap_or_default();
+        let later = j["later"].as_bool().unwrap_or(false);
+        let measured = j["measured"].as_u64().unwrap_or(u64::MAX) as usize;
+        part.evaluations += 1;
+        let key = format!("caprace:{arg}");
+        if !part.nontrivial_hashes.contains(&key) {
+            part.nontrivial_hashes.push(key);
+        }
+        *part.labels.entry("default_capacity_races".into()).or_default() += 1;
+        if part.samples.iter().filter(|s| s.get("set_default_mailbox_capacity_race").is_some()).count() < 2 {
+            part.samples.push(serde_json::json!({"set_default_mailbox_capacity_race": {"values_one_thread_each": vals, "results": got, "later_call_ok": later, "measured_spawn_capacity": measured}}));
+        }
+        let winners: Vec<usize> = vals.iter().zip(got.iter()).filter(|(_, ok)| **ok).map(|(v, _)| *v).collect();
+        let nonzero = vals.iter().filter(|v| **v != 0).count();
+        let mut errs = vec![];
+        if winners.iter().any(|v| *v == 0) {
+            errs.push("a call with capacity 0 was accepted".to_string());
+        }
+        if winners.len() > 1 {
+            errs.push(format!("{} concurrent calls were accepted (values {winners:?}); the default can be configured exactly once", winners.len()));
+        }
+        if nonzero > 0 && winners.is_empty() {
+            errs.push("no call was accepted although the default had never been configured".to_string());
+        }
+        if winners.len() == 1 && measured != winners[0] {
+            errs.push(format!("the accepted call configured {}, but spawn() uses a mailbox of capacity {measured}", winners[0]));
+        }
+        if nonzero == 0 && measured != 77 && !later {
+            errs.push(format!("nothing was configured, later call rejected, spawn() uses {measured}"));
+        }
+        if nonzero > 0 && later {
+            errs.push("a later set_default_mailbox_capacity call was accepted after the default had been configured".to_string());
+        }
+        if !errs.is_empty() {
+            let detail = format!("threads calling set_default_mailbox_capacity({vals:?}) at the same instant -> {got:?}: {}", errs.join("; "));
+            let path = write_replay(replay_out, "C09", "default-capacity-race", &detail, serde_json::json!({"caprace": {"vals": vals}}));
+            println!("VIOLATION property=C09 replay={path}");
+            println!("  kind=default-capacity-race detail={detail}");
+            part.violations.push(serde_json::json!({"kind": "default-capacity-race", "detail": detail, "replay": path}));
+            return 1;
+        }
+    }
+    0
+}
+
+// ---------------------------------------------------------------------------------------------
 // C13: the dead-letter counter under concurrency (needs the test-utils feature)
 // ---------------------------------------------------------------------------------------------
 /// K threads each perform M operations that fail to deliver (tell / ask / blocking variants against
@@ -677,10 +804,12 @@ pub fn c06_kill_race(seed: u64, rounds: u32, replay_out: &str, part: &mut Part) 
         if !variant_b {
             killed_expected = true;
             let go = Arc::new(AtomicBool::new(false));
+            let ready = Arc::new(AtomicUsize::new(0));
             let mut hs = vec![];
             for _ in 0..threads {
-                let (r2, go, failed, first_err, calls) = (r.clone(), go.clone(), failed.clone(), first_err.clone(), calls.clone());
+                let (r2, go, failed, first_err, calls, ready) = (r.clone(), go.clone(), failed.clone(), first_err.clone(), calls.clone(), ready.clone());
                 hs.push(std::thread::spawn(move || {
+                    ready.fetch_add(1, Ordering::AcqRel);
                     while !go.load(Ordering::Acquire) {
                         std::hint::spin_loop();
                     }
@@ -695,6 +824,10 @@ pub fn c06_kill_race(seed: u64, rounds: u32, replay_out: &str, part: &mut Part) 
                         }
                     }
                 }));
+            }
+            let t0 = std::time::Instant::now();
+            while ready.load(Ordering::Acquire) < threads && t0.elapsed() < Duration::from_secs(5) {
+                std::hint::spin_loop();
             }
             go.store(true, Ordering::Release);
             for h in hs {
